@@ -219,7 +219,7 @@ def runner_witness(role):
             return None
         shape = m2.group(2)
         if shape == "error":
-            body = f"{{ .ran_body = true; x = 1 / .zero; {tail} }}"
+            body = "{ .ran_body = true; to_string(1 / .zero) }" if kind == "string" else "{ .ran_body = true; 1 / .zero }"
         elif shape == "return":
             body = f"{{ .ran_body = true; if .yes == true {{ return {tail} }}; {tail} }}"
         elif shape == "ok":
